@@ -33,6 +33,7 @@ import (
 //vp:all model (*github.com/bolkedebruin/rdpgw/cmd/rdpgw/transport.LegacyPKT).Drain = vpmLGDrainE
 //vp:all stub (*github.com/gorilla/websocket.Upgrader).Upgrade = vpUpgrade
 //vp:all stub (*github.com/gorilla/websocket.Conn).Close = vpWSConnClose
+//vp:all stub (*github.com/gorilla/websocket.Conn).SetReadLimit = vpWSSetReadLimit
 //vp:all stub (*github.com/gorilla/websocket.Conn).UnderlyingConn = vpWSUnderlying
 //vp:all model github.com/patrickmn/go-cache.New = vpmCacheNew
 //vp:all stub (*github.com/patrickmn/go-cache.Cache).Get = vpCacheGet
@@ -71,7 +72,16 @@ func vpNextTransportFor(tr *vpTransport) {
 	vpMu.Unlock()
 }
 
-func vpNewWS(c *websocket.Conn) (*vpTransport, error) { return vpTakeTransport(), nil }
+func vpNewWS(c *websocket.Conn) (*vpTransport, error) {
+	t := vpTakeTransport()
+	t.isWS = true
+	return t, nil
+}
+
+// gorilla: SetReadLimit(n) makes a read of a MESSAGE larger than n bytes fail (and closes the connection).
+var vpWSReadLimit int64
+
+func vpWSSetReadLimit(c *websocket.Conn, n int64) { vpWSReadLimit = n }
 func vpNewLegacy(w http.ResponseWriter) (*vpTransport, error) {
 	if vpHijackFails {
 		return nil, errors.New("cannot hijack connection")
@@ -207,6 +217,7 @@ func vpResetHandlers() {
 	vpResetC01()
 	vpNextTransports, vpMadeTransports, vpHijackFails = nil, nil, false
 	vpUpgradeFails, vpWSConnCloses = false, 0
+	vpWSReadLimit = 0
 	vpCache, vpCacheMayExpire, vpCacheGets = map[string]interface{}{}, false, 0
 	vpExpiredAny, vpCacheSetLog = false, nil
 	vpWSGauge, vpLegacyGauge, vpCacheGauge = &vpGauge{}, &vpGauge{}, &vpGauge{}
